@@ -69,6 +69,7 @@ def history_stage(rep, proof_ok, sc, lib, prop, drv, harness_src, gen, tier, see
         if not okh:
             rep.violation("harness-build.txt", "harness %s does not compile against /repo's working tree:\n%s" % (harness_src, herr), found_input=False)
             return {"evaluations": 0}
+    ncorpus = 0
     if replay:
         payload = json.load(open(replay)) if isinstance(replay, str) else replay
         scenarios, stats = payload.get("scenarios", []), {"replay": True}
@@ -79,7 +80,7 @@ def history_stage(rep, proof_ok, sc, lib, prop, drv, harness_src, gen, tier, see
         corpus = [open(os.path.join(cdir, f)).read() for f in sorted(os.listdir(cdir))] if os.path.isdir(cdir) else []
         scenarios, stats = gen(rng, tier)
         scenarios = corpus + scenarios
-        stats["corpus"] = len(corpus)
+        stats["corpus"] = ncorpus = len(corpus)
     res = run_scenarios(hexe, drv_exe, scenarios, sc, tag="s_" + prop, env=replay_env if replay else None)
     if nohooks_reps and not replay:
         # the same scenarios with the hooks off: the trace lock serialises the hooked sections and would hide a
@@ -99,7 +100,9 @@ def history_stage(rep, proof_ok, sc, lib, prop, drv, harness_src, gen, tier, see
         for k in sweep_kinds:
             # k > 0: delay right after every record of kind k; k < 0: delay just before the next hooked action of a
             # thread whose latest record was of kind -k (holds open the unhooked code between the two)
-            pick = scenarios[:sweep_n]
+            # (corpus scenarios come first in the list; each of them runs three times under a sweep: they are the
+            # minimised timing-dependent failures, and a delay is drawn afresh on every run)
+            pick = scenarios[:ncorpus] * 2 + scenarios[:sweep_n]
             if k < 0 and sweep_filter:
                 pick = [x for x in scenarios if sweep_filter(x)][:2 * sweep_n]
             sw += run_scenarios(hexe, drv_exe, pick, sc, tag="sweep%d_%s" % (k, prop),
